@@ -72,8 +72,8 @@ class PostTag(object):
     yields nothing for a result without positions, count=True appends the number of values this very
     object has processed (1 for a private copy used once)."""
 
-    def __init__(self, dup=False, drop_empty=False, count=False):
-        self.dup, self.drop_empty, self.count = dup, drop_empty, count
+    def __init__(self, dup=False, drop_empty=False, count=False, use_src=False):
+        self.dup, self.drop_empty, self.count, self.use_src = dup, drop_empty, count, use_src
         self.seen = 0
 
     def run(self, flow):
@@ -86,13 +86,16 @@ class PostTag(object):
             if self.count:
                 # a stateful element: appends how many values this object has processed
                 ids = tuple(ids) + (self.seen,)
+            if self.use_src:
+                # the data result depends on the context of the cell
+                ids = tuple(ids) + (context.get("src", 0),)
             yield (("p" + tag, ids), context)
             if self.dup:
                 yield (("q" + tag, ids), copy.deepcopy(context))
 
 
 MAPS = {"tag": lambda: PostTag(), "dup": lambda: PostTag(dup=True), "drop": lambda: PostTag(drop_empty=True),
-        "seen": lambda: PostTag(count=True)}
+        "seen": lambda: PostTag(count=True), "src": lambda: PostTag(use_src=True)}
 
 
 KINDS = ("collect", "collect2", "nonempty", "pervalue", "shift", "mutate", "post", "postdup")
